@@ -653,7 +653,9 @@ func collectPanicObligations(c *Ctx, li *LockInfo, fns map[*ssa.Function]bool, v
 						}
 					}
 					if !okK {
-						sh := reflectShape(li, recv, map[ssa.Value]bool{})
+						reflectUseSite = in
+						sh := reflectShape(li, recv, map[ssa.Value]string{})
+						reflectUseSite = nil
 						switch n {
 						case "(reflect.Value).NumField", "(reflect.Value).Field":
 							if sh == "struct" {
@@ -670,10 +672,8 @@ func collectPanicObligations(c *Ctx, li *LockInfo, fns map[*ssa.Function]bool, v
 									okK, why = true, "on the CanInterface() edge of the value whose address is taken"
 								}
 							}
-							if !okK && !reflectRootsAllExported(li, f) {
-								// a reviewed table entry for this site presupposes the type-level fact; without it the key changes
-								add(in, "reflect", "Interface() [reached with values outside the exported Config tree]", false, "reflect.Value.Interface panics on unexported fields; this function is reached with values whose struct tree (outside the ConfigProp leaves) has unexported fields, or whose root is not reflect.ValueOf(*config.Config)")
-								return
+							if !okK && reflectRootsAllExported(li, f) && reflectDescentDiscipline(li, f) {
+								okK, why = true, "values are rooted at reflect.ValueOf(*config.Config); every struct of that tree outside the property leaves has exported fields only; and the traversal never descends into a field that answers to StagedConfigProp (each descent follows the failed assertion on that field), so no unexported field is reached"
 							}
 						}
 					}
@@ -1332,10 +1332,10 @@ func fieldAlwaysPositive(li *LockInfo, fv *types.Var) (bool, int, string) {
 //   "field"  a field of such a struct (addressable)
 //   ""       unknown
 // Parameters take the shape common to all module call sites (assumed while checking recursion).
-func reflectShape(li *LockInfo, v ssa.Value, assume map[ssa.Value]bool) string {
+func reflectShape(li *LockInfo, v ssa.Value, assume map[ssa.Value]string) string {
 	v = resolveVal(v)
-	if assume[v] {
-		return "ptr"
+	if sh, ok := assume[v]; ok {
+		return sh
 	}
 	switch x := v.(type) {
 	case *ssa.Call:
@@ -1410,23 +1410,112 @@ func reflectShape(li *LockInfo, v ssa.Value, assume map[ssa.Value]bool) string {
 		if len(cs) == 0 || idx < 0 {
 			return ""
 		}
-		as := map[ssa.Value]bool{x: true}
-		for k := range assume {
-			as[k] = true
-		}
-		for _, site := range cs {
-			call, ok := asCall(site.in)
-			if !ok {
-				return ""
+		// coinductive: try each shape as the assumption for this parameter (recursive call sites pass
+		// something derived from it) and accept the one that every call site then confirms
+		for _, cand := range []string{"ptr", "struct", "field"} {
+			as := map[ssa.Value]string{x: cand}
+			for k, v := range assume {
+				as[k] = v
 			}
-			a := callArgs(call)
-			if idx >= len(a) || reflectShape(li, a[idx], as) != "ptr" {
-				return ""
+			okAll := true
+			for _, site := range cs {
+				call, ok := asCall(site.in)
+				if !ok {
+					return ""
+				}
+				a := callArgs(call)
+				if idx >= len(a) || reflectShape(li, a[idx], as) != cand {
+					okAll = false
+					break
+				}
+			}
+			if okAll {
+				return cand
 			}
 		}
-		return "ptr"
+		return ""
+	case *ssa.Extract:
+		// result #i of a same-package helper: the shape common to the helper's returns, leaving out the
+		// returns that the facts at the site of use exclude (`v, ok := helper(); if !ok { continue }`)
+		call, ok := x.Tuple.(*ssa.Call)
+		if !ok {
+			return ""
+		}
+		g := helperBody(call)
+		if g == nil {
+			return ""
+		}
+		known := map[int]bool{} // index of a bool result -> its value at the site of use
+		if reflectUseSite != nil {
+			for _, fc := range factsAt(reflectUseSite.Parent(), reflectUseSite) {
+				if ex, ok := fc.cond.(*ssa.Extract); ok && ex.Tuple == ssa.Value(call) {
+					known[ex.Index] = fc.truth
+				}
+			}
+		}
+		common := ""
+		bad := false
+		eachInstr(g, func(in ssa.Instruction) {
+			ret, ok := in.(*ssa.Return)
+			if !ok || isRecoverReturn(ret) || bad {
+				return
+			}
+			vals := retVals(ret)
+			for i, want := range known {
+				if i < len(vals) {
+					if b, isC := constBool(vals[i]); isC && b != want {
+						return // this return is not the one taken
+					}
+				}
+			}
+			if x.Index >= len(vals) {
+				bad = true
+				return
+			}
+			// inside the helper its parameters have the shapes of this call's arguments
+			sh := reflectShapeIn(li, vals[x.Index], call, assume)
+			if sh == "" || (common != "" && common != sh) {
+				bad = true
+				return
+			}
+			common = sh
+		})
+		if bad {
+			return ""
+		}
+		return common
 	}
 	return ""
+}
+
+// reflectUseSite: the instruction whose obligation is being discharged (for correlated results).
+var reflectUseSite ssa.Instruction
+
+// reflectShapeIn evaluates the shape of v inside a helper entered through call: the helper's
+// parameters take the shapes of that call's arguments.
+func reflectShapeIn(li *LockInfo, v ssa.Value, call *ssa.Call, assume map[ssa.Value]string) string {
+	v = resolveVal(v)
+	if prm, ok := v.(*ssa.Parameter); ok {
+		if a, _, ok := paramArg(prm, dctx{call}); ok {
+			return reflectShape(li, a, assume)
+		}
+	}
+	if c2, ok := v.(*ssa.Call); ok {
+		args := callArgs(c2)
+		switch calleeName(c2) {
+		case "(reflect.Value).Field":
+			if reflectShapeIn(li, args[0], call, assume) == "struct" {
+				return "field"
+			}
+			return ""
+		case "(reflect.Value).Elem":
+			if reflectShapeIn(li, args[0], call, assume) == "ptr" {
+				return "struct"
+			}
+			return ""
+		}
+	}
+	return reflectShape(li, v, assume)
 }
 
 // reflectRootsAllExported: f is reached (through module calls) only with reflect values rooted at
@@ -1480,6 +1569,13 @@ func reflectRootsAllExported(li *LockInfo, f *ssa.Function) bool {
 	if obj == nil {
 		return false
 	}
+	var iface *types.Interface
+	if io := pkg.Pkg.Scope().Lookup("StagedConfigProp"); io != nil {
+		iface, _ = io.Type().Underlying().(*types.Interface)
+	}
+	if iface == nil {
+		return false
+	}
 	all := true
 	visited := map[types.Type]bool{}
 	var walk func(t types.Type)
@@ -1488,8 +1584,8 @@ func reflectRootsAllExported(li *LockInfo, f *ssa.Function) bool {
 			return
 		}
 		visited[t] = true
-		if n, ok := t.(*types.Named); ok && n.Obj().Name() == "ConfigProp" {
-			return // leaf: handled through the StagedConfigProp interface, never descended into
+		if iface != nil && (types.Implements(types.NewPointer(t), iface) || types.Implements(t, iface)) {
+			return // leaf: answered through the StagedConfigProp interface, never descended into (reflectDescentDiscipline)
 		}
 		st, ok := t.Underlying().(*types.Struct)
 		if !ok {
@@ -1505,4 +1601,205 @@ func reflectRootsAllExported(li *LockInfo, f *ssa.Function) bool {
 	}
 	walk(obj.Type())
 	return all
+}
+
+// reflectDescentDiscipline: in f and the same-package reflect traversal functions around it, a
+// struct field is handed on for descent (a call passing a value derived from Value.Field to a function
+// with a reflect.Value parameter) only after the "is it a StagedConfigProp" assertion on that field has
+// failed: (a) the descent is not reachable from the assertion's ok edge within the iteration, and
+// (b) every path from the field to the descent passes the assertion or the CanAddr()==false edge.
+func reflectDescentDiscipline(li *LockInfo, f *ssa.Function) bool {
+	isPropAssert := func(ta *ssa.TypeAssert) bool {
+		n, ok := ta.AssertedType.(*types.Named)
+		return ok && ta.CommaOk && n.Obj().Name() == "StagedConfigProp"
+	}
+	// helper that performs the assertion on its parameter and returns the ok
+	assertingHelper := func(h *ssa.Function) bool {
+		if h == nil || h.Blocks == nil {
+			return false
+		}
+		found, traverses := false, false
+		eachInstr(h, func(in ssa.Instruction) {
+			if ta, ok := in.(*ssa.TypeAssert); ok && isPropAssert(ta) {
+				found = true
+			}
+			if c2, ok := in.(*ssa.Call); ok && (calleeName(c2) == "(reflect.Value).Field" || calleeName(c2) == "(reflect.Value).NumField") {
+				traverses = true // a traversal, not a predicate on the value it is given
+			}
+		})
+		return found && !traverses
+	}
+	// the traversal functions through which f's values arrive: those that (transitively) call f
+	reaches := map[*ssa.Function]bool{f: true}
+	for changed := true; changed; {
+		changed = false
+		for _, g := range li.Fns {
+			if reaches[g] || originPkgPath(g) != originPkgPath(f) {
+				continue
+			}
+			eachInstr(g, func(in ssa.Instruction) {
+				for _, h := range li.Callees[in] {
+					if reaches[h] && !reaches[g] {
+						reaches[g] = true
+						changed = true
+					}
+				}
+			})
+		}
+	}
+	fns := []*ssa.Function{}
+	for _, g := range li.Fns {
+		if originPkgPath(g) != originPkgPath(f) || !reaches[g] {
+			continue
+		}
+		for _, p := range g.Params {
+			if p.Type().String() == "reflect.Value" {
+				fns = append(fns, g)
+				break
+			}
+		}
+	}
+	okAll := true
+	for _, g := range fns {
+		eachInstr(g, func(in ssa.Instruction) {
+			d, ok := in.(*ssa.Call)
+			if !ok || !okAll {
+				return
+			}
+			h := helperBody(d)
+			if h == nil || assertingHelper(h) {
+				return
+			}
+			takesValue := false
+			for _, p := range h.Params {
+				if p.Type().String() == "reflect.Value" {
+					takesValue = true
+				}
+			}
+			if !takesValue {
+				return
+			}
+			// the field being handed on
+			var fld *ssa.Call
+			for _, a := range callArgs(d) {
+				derivesFrom(a, func(v ssa.Value) bool {
+					if c2, ok := v.(*ssa.Call); ok && calleeName(c2) == "(reflect.Value).Field" && fld == nil {
+						fld = c2
+					}
+					if ex, ok := v.(*ssa.Extract); ok && fld == nil {
+						// field found by a lookup helper: treat the helper call as the field's definition
+						if c2, ok := ex.Tuple.(*ssa.Call); ok && helperBody(c2) != nil {
+							fld = c2
+						}
+					}
+					return false
+				})
+			}
+			if fld == nil {
+				return // not a descent into a field (e.g. the root call)
+			}
+			fromFld := func(v ssa.Value) bool {
+				return derivesFrom(v, func(w ssa.Value) bool { return w == ssa.Value(fld) })
+			}
+			// tests on this field, and the value carrying their ok
+			type tst struct {
+				in ssa.Instruction
+				ok ssa.Value
+			}
+			var tests []tst
+			eachInstr(g, func(i2 ssa.Instruction) {
+				switch x := i2.(type) {
+				case *ssa.TypeAssert:
+					if isPropAssert(x) && fromFld(x.X) {
+						tests = append(tests, tst{x, extractOf(x, 1)})
+					}
+				case *ssa.Call:
+					if hh := helperBody(x); hh != nil && assertingHelper(hh) {
+						for _, a := range callArgs(x) {
+							if fromFld(a) {
+								tests = append(tests, tst{x, extractOf(x, 1)})
+								break
+							}
+						}
+					}
+				}
+			})
+			if len(tests) == 0 {
+				okAll = false
+				return
+			}
+			isTest := func(i2 ssa.Instruction) bool {
+				for _, t := range tests {
+					if t.in == i2 {
+						return true
+					}
+				}
+				return false
+			}
+			header := func(b *ssa.BasicBlock) bool { return b != fld.Block() && b.Dominates(fld.Block()) }
+			// (b) no path field -> descent that avoids every test, except over a CanAddr(field)==false edge
+			skipCanAddrFalse := func(b *ssa.BasicBlock, si int) bool {
+				iff, ok := b.Instrs[len(b.Instrs)-1].(*ssa.If)
+				if !ok {
+					return false
+				}
+				cv, positive := stripNot(iff.Cond)
+				c3, ok := cv.(*ssa.Call)
+				if !ok || calleeName(c3) != "(reflect.Value).CanAddr" || !fromFld(callArgs(c3)[0]) {
+					return false
+				}
+				falseIdx := 1
+				if !positive {
+					falseIdx = 0
+				}
+				return si == falseIdx
+			}
+			p0 := posOf(fld)
+			p0.i++
+			hit := false
+			walkFrom(p0, func(i2 ssa.Instruction) bool {
+				if i2 == ssa.Instruction(d) {
+					hit = true
+					return true
+				}
+				return isTest(i2) || (i2.Block() != fld.Block() && header(i2.Block()))
+			}, nil, skipCanAddrFalse)
+			if hit {
+				okAll = false
+				return
+			}
+			// (a) from the ok edge of a test the descent is not reachable within the iteration
+			for _, t := range tests {
+				if t.ok == nil {
+					continue
+				}
+				for _, b := range g.Blocks {
+					iff, ok := b.Instrs[len(b.Instrs)-1].(*ssa.If)
+					if !ok {
+						continue
+					}
+					cv, positive := stripNot(iff.Cond)
+					if cv != t.ok {
+						continue
+					}
+					okIdx := 0
+					if !positive {
+						okIdx = 1
+					}
+					reached := false
+					walkFrom(pos{b.Succs[okIdx], 0}, func(i2 ssa.Instruction) bool {
+						if i2 == ssa.Instruction(d) {
+							reached = true
+							return true
+						}
+						return header(i2.Block())
+					}, nil, nil)
+					if reached {
+						okAll = false
+					}
+				}
+			}
+		})
+	}
+	return okAll
 }
